@@ -85,6 +85,25 @@ var externalAllowed = map[string]string{
 	"bytes.TrimRight":                                   "returns a sub-slice of its argument, never panics",
 	"(*golang.org/x/text/encoding.Decoder).Bytes":       "stateless charmap decoder, returns an error on failure",
 	"errors.New":                                        "total",
+	"(time.Time).Weekday":                               "total",
+	"(time.Time).Hour":                                  "total",
+	"(time.Time).Minute":                                "total",
+	"(time.Time).Second":                                "total",
+	"(time.Time).Nanosecond":                            "total",
+	"(time.Time).Date":                                  "total",
+	"(time.Time).Year":                                  "total",
+	"(time.Time).Month":                                 "total",
+	"(time.Time).Day":                                   "total",
+	"(time.Time).YearDay":                               "total",
+	"(time.Time).Unix":                                  "total",
+	"(time.Time).IsZero":                                "total",
+	"(time.Time).Equal":                                 "total",
+	"(time.Time).UTC":                                   "total",
+	"(time.Month).String":                               "total",
+	"(time.Weekday).String":                             "total",
+	"(time.Duration).String":                            "total",
+	"(time.Duration).Seconds":                           "total",
+	"(time.Duration).Milliseconds":                      "total",
 	"fmt.Errorf":                                        "total",
 	"fmt.Sprintf":                                       "total",
 	"reflect.TypeOf":                                    "total for a non-nil interface",
@@ -522,7 +541,8 @@ func checkC01(c *Check, p *Program) {
 				if !ok {
 					return
 				}
-				okG := g.Name() == "Logger" || g.Name() == "stringDecoder" || g.Name() == "longestLogger" || types.Identical(deref(g.Type()), types.Universe.Lookup("error").Type()) || g.Name() == "stringCharmap"
+				logSink := p.Func("knx/util", "Log")
+				okG := (logSink != nil && topOf(f) == logSink) || g.Name() == "Logger" || g.Name() == "stringDecoder" || g.Name() == "longestLogger" || types.Identical(deref(g.Type()), types.Universe.Lookup("error").Type()) || g.Name() == "stringCharmap"
 				c.Decide(okG, "C01.c", FuncName(f)+" reads global "+g.Name(), p.InstrPos(in), "logger / stateless decoder / error value", "decode result depends on mutable package-level state")
 			})
 		}
